@@ -33,7 +33,9 @@ type ProcSpec struct {
 	Replicas      int               `json:"replicas,omitempty"`
 	Signal        int               `json:"signal,omitempty"`
 	Namespace     string            `json:"namespace,omitempty"`
+	Description   string            `json:"description,omitempty"`
 	Command       string            `json:"command,omitempty"`
+	Entrypoint    []string          `json:"entrypoint,omitempty"` // used instead of command when set
 	Env           []string          `json:"env,omitempty"`
 	LogLocation   string            `json:"log_location,omitempty"`
 	Extra         map[string]string `json:"extra,omitempty"` // raw yaml lines under the process
@@ -153,11 +155,18 @@ func YAML(procs []ProcSpec, strict bool, logLength int, top ...string) string {
 	b.WriteString("processes:\n")
 	for _, p := range procs {
 		fmt.Fprintf(&b, "  %s:\n", p.Name)
-		cmd := p.Command
-		if cmd == "" {
-			cmd = "run-" + p.Name
+		if len(p.Entrypoint) > 0 {
+			b.WriteString("    entrypoint:\n")
+			for _, a := range p.Entrypoint {
+				fmt.Fprintf(&b, "      - %s\n", q(a))
+			}
+		} else {
+			cmd := p.Command
+			if cmd == "" {
+				cmd = "run-" + p.Name
+			}
+			fmt.Fprintf(&b, "    command: %s\n", q(cmd))
 		}
-		fmt.Fprintf(&b, "    command: %s\n", q(cmd))
 		if p.Disabled {
 			b.WriteString("    disabled: true\n")
 		}
@@ -177,6 +186,9 @@ func YAML(procs []ProcSpec, strict bool, logLength int, top ...string) string {
 		}
 		if p.Namespace != "" {
 			fmt.Fprintf(&b, "    namespace: %s\n", p.Namespace)
+		}
+		if p.Description != "" {
+			fmt.Fprintf(&b, "    description: %s\n", q(p.Description))
 		}
 		if p.LogLocation != "" {
 			fmt.Fprintf(&b, "    log_location: %s\n", q(p.LogLocation))
